@@ -29,6 +29,7 @@ LEVEL = "exploration"
 
 import numpy as np  # noqa: E402
 import pyproj  # noqa: E402
+import shapely.geometry  # noqa: E402
 
 from odc.geo import geom  # noqa: E402
 from odc.geo import geobox as gbx  # noqa: E402
@@ -774,7 +775,7 @@ ENC_REGION = ((-7.0, 3.0, 12.0, 1001.0), (-7.5, 3.25, 12.375, 1000.375), (100000
               (2500000.25, 3.25, 2500007.75, 12.5), (-0.0, -0.0, 0.0, 0.0))
 ENC_REQ = (("s", 5), ("s", 0.5), ("xy", 0.1, -0.1), ("xy", -2, 2), ("shape", (3, 5)), ("shape", 10))
 ENC_ANCHOR = ("edge", "center", 0.25, "floating")
-ENC_BBOX = ("float", "int", "np64", "np32", "list", "arr64", "arr32", "bbox", "bbox-np32", "bbox-int")
+ENC_BBOX = ("float", "int", "np64", "np32", "list", "arr64", "arr32", "arr-strided", "bbox", "bbox-np32", "bbox-int")
 
 
 def _enc_bbox(enc, reg):
@@ -796,6 +797,9 @@ def _enc_bbox(enc, reg):
         return np.asarray(f, dtype="float64")
     if enc == "arr32":
         return np.asarray(f, dtype="float32")
+    if enc == "arr-strided":  # every other element of a Fortran-ordered 2-d array's column
+        a = np.asfortranarray(np.asarray([f, f], dtype="float64").T.repeat(2, axis=0))
+        return a[::2, 1]
     if enc == "bbox":
         return BoundingBox(*f, crs=CRS0)
     if enc == "bbox-np32":
@@ -859,6 +863,20 @@ def run_enc(case):
                 same(r, f"encoding:{benc}:request-as-{rl}:{mode}", ref, g, what)
             if keep is not None and list(b) != keep:
                 r.fail("input-modified:list-bbox", f"{what}: the caller's list was changed to {b}")
+    # a Geometry built from the same numbers (python floats / binary32 scalars)
+    if reg[0] != reg[2] and reg[1] != reg[3]:
+        x0, y0, x1, y1 = (float(v) for v in reg)
+        ring = [(x0, y0), (x0, y1), (x1, y1), (x1, y0), (x0, y0)]
+        # (odc.geo.geom constructors refuse binary32 scalars with a ValueError; shapely takes a binary32 array)
+        for gl, mk in (("geom-float", lambda: geom.polygon(ring, CRS0)),
+                       ("geom-np64", lambda: geom.polygon([(np.float64(x), np.float64(y)) for x, y in ring], CRS0)),
+                       ("geom-shapely-arr32", lambda: geom.Geometry(
+                           shapely.geometry.Polygon(np.asarray(ring, dtype="float32")), CRS0))):
+            for rl, kw in _enc_req(renc)[:1]:
+                what = _what("from_geopolygon", geometry=gl, bbox=reg, req=renc, anchor=aenc, tight=tight, tol=tol)
+                g = GeoBox.from_geopolygon(mk(), anchor=aarg, tight=tight, tol=tol, **kw)
+                n += 1
+                same(r, f"encoding:{gl}:{mode}", ref, g, what)
     r.outcome = f"enc:{mode}:{aclass}:{n}-encodings"
     r.counts = {"encoded_calls": n}
     return r
@@ -1146,21 +1164,28 @@ def slices(tier):
 def main(ctx):
     t = ctx.tier == "thorough"
     ctx.rule = (
-        "complete Cartesian products (unions of products for the polygon slices); every case constructs one "
-        "GeoBox with the real code and judges both axes in exact rationals; distinct by (slice, case) hash"
+        "complete Cartesian products (unions of products for the polygon / crs slices); every case constructs "
+        "GeoBoxes with the real code, judges both axes in exact rationals and compares equivalent routes "
+        "(encodings, entry points, histories) for identical results; distinct by (slice, case) hash"
     )
     ctx.bounds = {
         "low_edge_px": list(LEFT_T if t else LEFT_Q), "span_px": list(SPAN_T if t else SPAN_Q),
         "pixel_size": list(RES_T if t else RES_Q), "anchor": [repr(a) for a in (ANCHOR_T if t else ANCHOR_Q)],
         "tol": list(TOL_T if t else TOL_Q), "tight": [False, True],
         "shapes": [list(s) for s in (SHAPES_T if t else SHAPES_Q)], "int_shapes": list(NS_T if t else NS_Q),
-        "max_abs_coordinate_px": 1e7, "max_span_px": 2e6,
+        "max_abs_coordinate_px": 1e8, "max_span_px": 4e6 if t else 2000000.85,
+        "tol_window_f": list(TW_F), "tol_window_tol": list(TW_TOL),
+        "bbox_encodings": list(ENC_BBOX), "geometry_kinds": list(KINDS + KINDS_X),
+        "crs_families": {k: [m[0] for m in v] for k, v in CRS_FAMILY.items()},
+        "history_preludes": list(H_PRE), "zoom_ratios": list(Z_RATIO),
     }
     ctx.assumptions = [
         "region edges are the binary64 numbers handed to the library (right = left + span*pixel evaluated in "
         "binary64); the oracle converts inputs and the affine read back to exact rationals",
-        "comparisons carry the DESIGN s.3 R tolerance 1e-9*(|coordinate| + pixel) for the implementation's own "
-        "binary64 rounding (x/res, k*res, +offset); tol itself is applied exactly: uncovered <= tol*pixel per side",
+        "comparisons carry 8 ulp of the largest coordinate involved + 1e-9 pixel for the implementation's own "
+        "binary64 rounding (x/res, k*res, +offset: a handful of correctly rounded operations); tol itself is applied "
+        "exactly: uncovered <= tol*pixel per side. The DESIGN s.3 R tolerance 1e-9*|coordinate| is deliberately not "
+        "used (it is ~100 pixels of a 4.5e-6 grid at 5e5)",
         "minimality (< (1+tol) pixel excess per side) is demanded when the axis has more than one pixel: a GeoBox "
         "has at least one pixel, and for one pixel the clause follows from covering except for a zero-span region "
         "on a grid line",
@@ -1178,6 +1203,18 @@ def main(ctx):
         "vertices transformed by a fresh pyproj.Transformer; curvature of edges is the subject of C07/C11",
         "zoom_to(resolution=): the region is the bounding box of the four corners of the source GeoBox (exact, from "
         "its affine); tol is the documented default 0.01 of a new pixel; the result is not snapped (tight)",
+        "differential clauses demand bit-identical shape/affine and equal crs: same numbers in another encoding "
+        "(int, numpy 64/32-bit scalars and arrays, list, strided array, BoundingBox, Geometry), same CRS in another "
+        "encoding, from_bbox vs from_geopolygon vs positional arguments vs align=, zoom_to method vs function vs "
+        "compute_zoom_to vs from_bbox(boundingbox, tight=True), rasterize(...).odc.geobox vs from_geopolygon, and the "
+        "same request on a fresh object vs after a history on the same instance",
+        "outside the documented domain, clean refusals, recorded not demanded: anchor 1.0 / 1 / True (AssertionError: "
+        "snap_grid wants [0,1)), anchor numpy.float32 (KeyError), resolution / bare-number shape as numpy.int64 / "
+        "numpy.float32 (ValueError from res_ / shape_), empty geometry (AssertionError), CRS-less geometry with crs= "
+        "(ValueError), odc.geo.geom constructors given numpy.float32 scalars (ValueError)",
+        "compute_output_geobox / GeoBox.to_crs / .odc.output_geobox forward the same options to from_bbox: their "
+        "option handling and entry-point agreement are enumerated by C11, not repeated here; GCPGeoBox.zoom_to("
+        "resolution=) works in the pixel plane of the control points (C09) and is not judged here",
     ]
     sl = slices(ctx.tier)
     if ctx.only:
